@@ -183,6 +183,8 @@ impl Prop for C03 {
                 info.label_n(format!("hist_{k}"), *v);
             }
         }
+        info.label_n("hist_faults_hit", rec.faults_hit as u64);
+        info.label_n("hist_hard_faults_hit", rec.hard_faults_hit as u64);
         info.nontrivial = !nt.is_empty();
         info.nontrivial_hashes = nt;
         info.sample = sample;
